@@ -241,8 +241,9 @@ def write_evidence(prop, tier, seed, results, wall, violations, extra_assumption
         ev["coverage"]["states"] = 1
     if ev["coverage"]["transitions"] < 1:
         ev["coverage"]["transitions"] = 1
-    os.makedirs(os.path.join(VERIF, "evidence"), exist_ok=True)
-    with open(os.path.join(VERIF, "evidence", prop + ".json"), "w") as f:
+    evdir = os.environ.get("VERIF_EVIDENCE_DIR") or os.path.join(VERIF, "evidence")  # (seeded-change runs write elsewhere)
+    os.makedirs(evdir, exist_ok=True)
+    with open(os.path.join(evdir, prop + ".json"), "w") as f:
         json.dump(ev, f, indent=1, default=str)
     return ev
 
